@@ -37,6 +37,16 @@ type World struct {
 	Roots []*x509.Certificate // trusted pool; nil => embedded Intel root
 	Times [5]time.Time
 	Extra map[string]Resp // extra / overriding responses
+
+	Origin *World // the world this one was cloned from (nil for an original)
+}
+
+// Root returns the original world a clone descends from.
+func (w *World) Root() *World {
+	if w.Origin != nil {
+		return w.Origin
+	}
+	return w
 }
 
 // HonestOpts are the diversity knobs of the honest generator.
@@ -128,6 +138,10 @@ type Case struct {
 	Roots         [][]byte        `json:"roots,omitempty"`
 	Times         [5]time.Time    `json:"times"`
 	Resp          map[string]Resp `json:"resp,omitempty"`
+
+	// TwinRef, when set, is the unbroken case this one was derived from (same PKI, same options): the monitors
+	// also verify [twin, this case] through one re-used Options value. Not serialised.
+	TwinRef *Case `json:"-"`
 }
 
 func (c *Case) Clone() *Case {
@@ -193,6 +207,7 @@ func (w *World) Case(level int, class, param string) *Case {
 // CRLs, roots and times can be edited independently. Keys and certificates are shared.
 func (w *World) Clone() *World {
 	c := *w
+	c.Origin = w.Root()
 	pp := *w.P
 	c.P = &pp
 	pk := *w.PKI
